@@ -60,8 +60,8 @@ def run_seq_check(prop, tier, seed, profiles, oracle, n_quick, n_thorough, assum
     stage_of = (chk, st): run as a further stage of a check whose front already ran (its coverage is kept under `first_stage`)."""
     if stage_of:
         chk, st = stage_of
-        if chk.violations:
-            return chk.finish()
+        if any(not nofail for _, nofail in chk.violations):
+            return chk.finish()      # the first stage already has a concrete failing input
         chk.cov = {"first_stage": dict(chk.cov)}
         chk.assumptions = list(chk.assumptions) + list(assumptions)
     else:
